@@ -1,10 +1,187 @@
-import Ruint.Model.Gcd
+import Ruint.Lemmas.LehmerFrom
+import Ruint.Lemmas.Gcd
+import Ruint.Lemmas.GcdExt
 
-/-! # C12 — gcd, lcm, gcd_extended, Lehmer update matrices (theorems being re-homed; placeholder) -/
+/-!
+# C12 — gcd, lcm, extended gcd, Lehmer update matrices
+
+Property theorems only (helper lemmas live in `Lemmas/Lehmer*.lean`, `Lemmas/Gcd*.lean`). Every theorem quantifies over
+**all** widths `bits` and all operands below `2^bits`. The model functions (`Ruint.Lehmer.*` in `Model/Lehmer.lean`,
+`Ruint.Gcd.*` in `Model/Gcd.lean`) are the ones the correspondence driver executes against the real
+`Uint::{gcd, lcm, gcd_extended}` and `ruint::algorithms::LehmerMatrix::*`; `some _` = returns, `none` = panics.
+
+Layering (DESIGN §3.3a): `from_u64`, `from_u64_prefix` (packed `u·2^32+v` words, twice-unrolled loop, all nine return
+sites), `from_u128_prefix`, `apply_u128`, `compose` are modelled at word level with explicit wrapping; `Matrix::from`,
+`apply`, `gcd`, `gcd_extended`, `lcm` are modelled on `Uint` *values* through the value-level meaning of the `Uint`
+operations they call (owned by C01–C07).
+
+Everything is closed end to end: no `_partial` theorem, no oracle hypothesis is left. The matrix contract
+(`Lehmer.contract`) that the gcd theorems used as an interface is still evaluated by the driver on every matrix the
+*implementation* produces (ops `mfrom`, `mpre`, `m128`, `mu64`, `gcdtrace`).
+-/
 namespace Ruint.C12
 open Ruint Ruint.Lehmer Ruint.Gcd
 
-theorem gcd_zero_right (bits a : Nat) : gcd bits a 0 = some a := by
-  simp [gcd, gcdLoop]
+/-! ## 1. Lehmer update matrices -/
+
+/-- **`Matrix::from` — the property's clause, for the real (packed) model.** For every `a ≥ b` (any width): `from` does
+    not panic, and the matrix is the identity or `apply` (wrapping `Uint` arithmetic, no panic) maps `(a, b)` to `(c, d)`
+    with `c ≥ d` (indeed `c > d`), `d < b`, `gcd c d = gcd a b`; moreover `c ≤ a`. For `b = 0` it is the identity. -/
+theorem matrix_from_spec (bits a b : ℕ) (ha : a < 2 ^ bits) (hba : b ≤ a) :
+    ∃ m, matFrom a b = some m ∧
+      (b = 0 → m = ident) ∧
+      (m = ident ∨ ∃ c d, Lehmer.apply bits m a b = some (c, d) ∧ d < c ∧ d < b ∧ c ≤ a
+        ∧ Nat.gcd c d = Nat.gcd a b) := by
+  rcases Nat.eq_zero_or_pos b with hb | hb
+  · subst hb
+    by_cases hs : bitLen a ≤ 64
+    · refine ⟨ident, ?_, fun _ => rfl, Or.inl rfl⟩
+      unfold matFrom; rw [if_neg (by omega)]; simp only [hs, if_true]
+      unfold fromU64; rw [if_neg (by omega), if_pos rfl]
+    · push Not at hs
+      obtain ⟨e, h63, hW⟩ := matFrom_prefix a 0 (Nat.zero_le _) hs
+      refine ⟨ident, ?_, fun _ => rfl, Or.inl rfl⟩
+      rw [e, Nat.zero_div]
+      unfold fromU64Prefix
+      rw [if_neg (by omega)]
+      simp [LIMIT]
+  · obtain ⟨m, hm, hc⟩ := matFrom_contract a b hba hb
+    refine ⟨m, hm, fun h => by omega, ?_⟩
+    rcases contract_cases a b m hc with hid | hg
+    · exact Or.inl hid
+    · obtain ⟨c, d, h1, _, h3, h4, h5, h6⟩ := apply_exact bits a b m ha hba hg
+      exact Or.inr ⟨c, d, h1, h3, h4, h5, h6⟩
+
+/-- the same in contract form (what `gcd`, `gcd_extended`, `inv_mod` rely on): determinant `±1` matching the sign flag,
+    non-decreasing rows, lower-left entry `≥ 1`, and over ℤ `0 ≤ d < c`, `d < b` for `(c, d) = m·(a, b)`. -/
+theorem matrix_from_contract (a b : ℕ) (hba : b ≤ a) (hb : 0 < b) :
+    ∃ m, matFrom a b = some m ∧ contract a b m = true :=
+  matFrom_contract a b hba hb
+
+/-- **`from_u64_prefix`** (packed cofactors, twice-unrolled loop, Jebelean's tests): on its documented domain
+    (`a0` has the top bit set, `a0 ≥ a1`) it does not panic, no word operation wraps, and the result is the identity or is
+    valid for **every** pair of integers that start with the bits of `a0`, `a1`: for all `K ≥ 1`, `0 ≤ α, β < K` it meets
+    the contract on `(a0·K + α, a1·K + β)`. -/
+theorem from_u64_prefix_spec (a0 a1 : ℕ) (h63 : 2 ^ 63 ≤ a0) (hW : a0 < W) (hle : a1 ≤ a0) :
+    ∃ m, fromU64Prefix a0 a1 = some m ∧
+      ∀ K α β : ℕ, 1 ≤ K → α < K → β < K → contract (a0 * K + α) (a1 * K + β) m = true := by
+  obtain ⟨m, hm, _⟩ := fromU64Prefix_contract a0 a1 1 0 0 h63 hW hle (le_refl _) (by norm_num) (by norm_num)
+  refine ⟨m, hm, fun K α β hK hα hβ => ?_⟩
+  obtain ⟨m', hm', hc⟩ := fromU64Prefix_contract a0 a1 K α β h63 hW hle hK hα hβ
+  rw [hm] at hm'
+  cases hm'
+  exact hc
+
+/-- outside the documented domain `from_u64_prefix` panics (dev profile: the two `debug_assert!`s). -/
+theorem from_u64_prefix_panics (a0 a1 : ℕ) (h : a0 < 2 ^ 63 ∨ a0 < a1) : fromU64Prefix a0 a1 = none := by
+  unfold fromU64Prefix; rw [if_pos h]
+
+/-- **`from_u64`** (extended Euclid on words): for `r0 ≥ r1` no panic, no wrap; the identity iff `r1 = 0`, otherwise the
+    matrix meets the contract, maps `(r0, r1)` to `(gcd r0 r1, 0)` and its entries are `≤ r0`. -/
+theorem from_u64_spec (r0 r1 : ℕ) (hle : r1 ≤ r0) (hW : r0 < W) :
+    ∃ m, fromU64 r0 r1 = some m ∧
+      (r1 = 0 → m = ident) ∧
+      (0 < r1 → good r0 r1 m = true
+        ∧ applyZ m r0 r1 = ((Nat.gcd r0 r1 : ℤ), 0)
+        ∧ m.1 ≤ r0 ∧ m.2.1 ≤ r0 ∧ m.2.2.1 ≤ r0 ∧ m.2.2.2.1 ≤ r0) :=
+  fromU64_spec r0 r1 hle hW
+
+/-- **`from_u128_prefix`** on a value of more than one word: meets the contract on `(r0, r1)` itself. -/
+theorem from_u128_prefix_spec (r0 r1 : ℕ) (h64 : 64 ≤ bitLen r0) (h128 : r0 < 2 ^ 128) (hle : r1 ≤ r0) (hr1 : 0 < r1) :
+    ∃ m, fromU128Prefix r0 r1 = some m ∧ contract r0 r1 m = true := by
+  have hr0 : r0 ≠ 0 := by omega
+  have hn : bitLen r0 ≤ 128 := by
+    by_contra hc
+    push Not at hc
+    obtain ⟨l1, _, _⟩ := bitLen_pos_range r0 hr0
+    have : 2 ^ 128 ≤ 2 ^ (bitLen r0 - 1) := Nat.pow_le_pow_right (by norm_num) (by omega)
+    omega
+  obtain ⟨e, h63, hW⟩ := fromU128Prefix_eq r0 r1 (bitLen r0) rfl h64 hn hle
+  obtain ⟨K, hK⟩ : ∃ K, K = 2 ^ (bitLen r0 - 64) := ⟨_, rfl⟩
+  rw [← hK] at e h63 hW
+  have hKpos : 0 < K := by rw [hK]; exact Nat.pow_pos (by norm_num)
+  obtain ⟨m, hm, hc⟩ := fromU64Prefix_contract (r0 / K) (r1 / K) K (r0 % K) (r1 % K) h63 hW
+    (Nat.div_le_div_right hle) hKpos (Nat.mod_lt _ hKpos) (Nat.mod_lt _ hKpos)
+  rw [Nat.div_add_mod' r0 K, Nat.div_add_mod' r1 K] at hc
+  exact ⟨m, by rw [e]; exact hm, hc⟩
+
+/-- **`apply`**: on a matrix meeting the contract the wrapping arithmetic is exact — no panic in `Uint::from`, and the
+    wrapped results are the true integers `m·(a, b)`. -/
+theorem apply_spec (bits a b : ℕ) (m : Mat) (ha : a < 2 ^ bits) (hba : b ≤ a) (h : good a b m = true) :
+    ∃ c d : ℕ, Lehmer.apply bits m a b = some (c, d) ∧ applyZ m a b = ((c : ℤ), (d : ℤ)) ∧ d < c ∧ d < b ∧ c ≤ a
+      ∧ Nat.gcd c d = Nat.gcd a b :=
+  apply_exact bits a b m ha hba h
+
+/-- **`apply_u128`**: the same on `u128`. -/
+theorem apply_u128_spec (a b : ℕ) (m : Mat) (ha : a < 2 ^ 128) (hba : b ≤ a) (h : good a b m = true) :
+    ∃ c d : ℕ, applyU128 m a b = (c, d) ∧ applyZ m a b = ((c : ℤ), (d : ℤ)) ∧ d < c ∧ d < b ∧ c ≤ a
+      ∧ Nat.gcd c d = Nat.gcd a b := by
+  obtain ⟨c, d, h1, h2, h3, h4, h5, h6⟩ := apply_exact 128 a b m ha hba h
+  obtain ⟨_, _, _, _, _, _, _, _, e0, e1, e2, e3⟩ := good_facts a b m hba h
+  refine ⟨c, d, ?_, h2, h3, h4, h5, h6⟩
+  unfold Lehmer.apply at h1
+  rw [if_neg (by norm_num), if_neg (by omega)] at h1
+  unfold applyU128
+  simp only at h1 ⊢
+  split
+  · next hs => rw [if_pos hs] at h1; exact Option.some.inj h1
+  · next hs => rw [if_neg hs] at h1; exact Option.some.inj h1
+
+/-! ## 2. gcd -/
+
+/-- **`gcd`**: for all widths and operands the result is the greatest common divisor (no panic). -/
+theorem gcd_spec (bits a b : ℕ) (ha : a < 2 ^ bits) (hb : b < 2 ^ bits) :
+    gcd bits a b = some (Nat.gcd a b) :=
+  gcd_spec_of_oracle matFrom_contract bits a b ha hb
+
+/-- `gcd(0, 0) = 0`, `gcd(a, 0) = a`, `gcd(0, b) = b`. -/
+theorem gcd_zero (bits a : ℕ) (ha : a < 2 ^ bits) :
+    gcd bits 0 0 = some 0 ∧ gcd bits a 0 = some a ∧ gcd bits 0 a = some a := by
+  have h0 : 0 < 2 ^ bits := Nat.pow_pos (by norm_num)
+  refine ⟨?_, ?_, ?_⟩
+  · rw [gcd_spec bits 0 0 h0 h0]; rfl
+  · rw [gcd_spec bits a 0 ha h0, Nat.gcd_zero_right]
+  · rw [gcd_spec bits 0 a h0 ha, Nat.gcd_zero_left]
+
+/-- the result is a common divisor and every common divisor divides it ("greatest"). -/
+theorem gcd_greatest (bits a b : ℕ) (ha : a < 2 ^ bits) (hb : b < 2 ^ bits) :
+    ∃ g, gcd bits a b = some g ∧ g ∣ a ∧ g ∣ b ∧ ∀ e, e ∣ a → e ∣ b → e ∣ g :=
+  ⟨_, gcd_spec bits a b ha hb, Nat.gcd_dvd_left a b, Nat.gcd_dvd_right a b, fun _ h1 h2 => Nat.dvd_gcd h1 h2⟩
+
+/-! ## 3. gcd_extended -/
+
+/-- **`gcd_extended`**: `(g, x, y, sign)` with `g = gcd a b`, canonical cofactors, and the Bezout identity **exact over
+    ℤ**: `a·x − b·y = g` if `sign`, else `b·y − a·x = g`. -/
+theorem gcd_extended_spec (bits a b : ℕ) (ha : a < 2 ^ bits) (hb : b < 2 ^ bits) :
+    ∃ g x y s, gcdExtended bits a b = some (g, x, y, s) ∧ g = Nat.gcd a b ∧ x < 2 ^ bits ∧ y < 2 ^ bits
+      ∧ (s = true → (a : ℤ) * x - b * y = g) ∧ (s = false → (b : ℤ) * y - a * x = g) :=
+  GcdExt.gcdExtended_spec_of_oracle matFrom_contract bits a b ha hb
+
+/-- the property's wording: the identity evaluated with the wrapping `Uint` operations (modulo `2^bits`). -/
+theorem gcd_extended_mod_spec (bits a b : ℕ) (ha : a < 2 ^ bits) (hb : b < 2 ^ bits) :
+    ∃ g x y s, gcdExtended bits a b = some (g, x, y, s) ∧ g = Nat.gcd a b
+      ∧ (s = true → usub (2 ^ bits) (umul (2 ^ bits) a x) (umul (2 ^ bits) b y) = g)
+      ∧ (s = false → usub (2 ^ bits) (umul (2 ^ bits) b y) (umul (2 ^ bits) a x) = g) :=
+  GcdExt.gcdExtended_mod_of_oracle matFrom_contract bits a b ha hb
+
+/-! ## 4. lcm -/
+
+/-- **`lcm`**: `Some(a·b / gcd)` exactly when that value is `< 2^bits` (`Some(0)` if either operand is 0), else `None`. -/
+theorem lcm_spec (bits a b : ℕ) (ha : a < 2 ^ bits) (hb : b < 2 ^ bits) :
+    lcm bits a b = some (if a = 0 ∨ b = 0 then some 0
+                         else if a * b / Nat.gcd a b < 2 ^ bits then some (a * b / Nat.gcd a b) else none) :=
+  lcm_spec_of_oracle matFrom_contract bits a b ha hb
+
+/-- the value is the least common multiple. -/
+theorem lcm_value (a b : ℕ) : a * b / Nat.gcd a b = Nat.lcm a b := rfl
+
+/-! ## non-vacuity: the hypotheses are satisfiable and the model computes -/
+
+example : fromU64 252 105 = some (2, 5, 5, 12, false) := by decide
+example : matFrom 252 105 = some (2, 5, 5, 12, false) := by decide
+example : good 252 105 (2, 5, 5, 12, false) = true := by decide
+example : gcd 8 252 105 = some 21 := by decide
+example : gcdExtended 8 252 105 = some (21, 2, 5, false) := by decide
+example : lcm 8 12 18 = some (some 36) ∧ lcm 8 252 105 = some none := by decide
 
 end Ruint.C12
